@@ -329,7 +329,7 @@ def run(ctx):
     devobs = {hkey(c): [h["obs"] for h in c["hist"]] for c in devrun.cases}
     cases = strict.cases
     if not quick:
-        cases = [c for i, c in enumerate(cases) if i % 4 == 0]
+        cases = [c for i, c in enumerate(cases) if i % 2 == 0]
     res = core.pmap(history_job, cases, chunksize=8)
     for c, r in zip(cases, res):
         cid = {"history": [[h["op"], h["arg"]] for h in c["hist"]]}
